@@ -574,6 +574,11 @@ def violation_terms(h, R, w):
                 elif np.all(wv == 0):
                     gg = np.minimum(gv, 0.0) if R.meta.get('positive') else gv
                     terms.append(max(0.0, float(np.linalg.norm(gg)) - lam))
+                elif R.meta.get('positive'):
+                    # boundary coordinates (w_j = 0) of a non-zero block only constrain the sign of the gradient
+                    nw_ = np.linalg.norm(wv)
+                    r = np.where(wv > 0, gv + lam * wv / nw_, np.maximum(-gv, 0.0))
+                    terms.append(float(np.linalg.norm(r)))
                 else:
                     terms.append(float(np.linalg.norm(gv + lam * wv / np.linalg.norm(wv))))
                 continue
@@ -595,7 +600,12 @@ def violation_terms(h, R, w):
                     terms.append(_smax(0.0, shim.norm(h.arr(gg)) - lam))
                 else:
                     nr = shim.norm(h.arr(wv))
-                    terms.append(shim.norm(h.arr([gv[k] + lam * wv[k] / nr for k in range(len(idxs))])))
+                    if R.meta.get('positive'):
+                        # boundary coordinates (w_j = 0) of a non-zero block only constrain the sign of the gradient
+                        comp = [(gv[k] + lam * wv[k] / nr) if bool(wv[k] > 0) else _smax(-gv[k], 0.0) for k in range(len(idxs))]
+                    else:
+                        comp = [gv[k] + lam * wv[k] / nr for k in range(len(idxs))]
+                    terms.append(shim.norm(h.arr(comp)))
         if R.fit_intercept:
             terms.append(abs(g[p]))
         return terms
